@@ -337,6 +337,32 @@ Proof.
   - destruct (o =? 0)%Z eqn:E; [apply Z.eqb_eq in E; subst o|]; reflexivity.
 Qed.
 
+Lemma lstrip_char_ws data : ws_indent data = true -> ws_indent (py_lstrip_char data 10%N) = true.
+Proof.
+  induction data as [|c r IH]; [reflexivity|]. intros H. cbn [py_lstrip_char]. destruct (N.eqb c 10); [|exact H].
+  apply IH. cbn [ws_indent forallb] in H. apply andb_prop in H as [_ H]. exact H.
+Qed.
+
+(* what the writer writes of a whitespace string is a whitespace string, and is read back as such *)
+Lemma writer_ws p o data : ws_indent data = true -> ws_indent (fst (writer_call p o data)) = true.
+Proof.
+  intros H. pose proof (lstrip_char_ws data H) as H2. unfold writer_call.
+  destruct (negb p && (o =? 0)%Z)%bool.
+  - destruct (negb (py_bool_str (py_lstrip_char data 10%N))); [reflexivity|].
+    destruct (str_eqb (py_last1 (py_lstrip_char data 10%N)) [10%N]); [exact H2|].
+    destruct (py_rfind1 (py_lstrip_char data 10%N) 10%N (py_len (py_lstrip_char data 10%N)) =? -1)%Z; exact H2.
+  - destruct (negb (py_bool_str data)); [reflexivity|].
+    destruct (str_eqb (py_last1 data) [10%N]); [exact H|].
+    destruct (py_rfind1 data 10%N (py_len data) =? -1)%Z; exact H.
+Qed.
+Lemma emit_ws st data : ws_indent data = true -> all_ws (unesc (fst (emit st data))).
+Proof.
+  intros H. unfold emit. pose proof (writer_ws (w_pres st) (w_off st) data H) as Hw.
+  destruct (writer_call (w_pres st) (w_off st) data) as [d o]. cbn [fst] in *.
+  rewrite <- (app_nil_r d). rewrite (unesc_ws_prefix d [] Hw). cbn [unesc]. rewrite app_nil_r.
+  apply all_ws_of_ws_indent. exact Hw.
+Qed.
+
 Section TextOnlyC03.
   Variable ind : str.
   Variable align : bool.
@@ -358,30 +384,21 @@ Section TextOnlyC03.
     destruct (emit st ([60%N] ++ pfx ns ++ name)) as [o1 st1].
     destruct (emit_attrs st1 (attr_pieces ind align L (attrs_data attrs))) as [o2 st2].
     destruct (emit st2 [62%N]) as [o3 st3].
-    unfold emit_raw at 1. pose proof (emit_NL_off st3) as Hoff.
-    destruct (emit st3 NL) as [d0 st4]. cbn [snd] in Hoff.
-    cbn [w_kids length].
+    unfold emit_raw at 1. pose proof (emit_NL_off st3) as Hoff. pose proof (emit_ws st3 NL eq_refl) as Hd0.
+    destruct (emit st3 NL) as [d0 st4]. cbn [snd] in Hoff. cbn [fst] in Hd0.
+    cbn [w_kids length hd_error].
     destruct (text_only_lines ind width req ind_nolf width_pos (S L) st4 (0%nat :: rp) aft k Hk Hoff)
       as (ls & E & Hne & HF & Hj & Ec).
     destruct (w_text ind width req (S L) st4 (0%nat :: rp) None k None aft) as [cs st5]. cbn [fst] in Ec. subst cs.
     set (closing := if has_ind ind then emit_raw st5 (indent ind L) else ([], st5)).
     assert (Hcl : exists w, all_ws w /\ Nv (map seen (fst closing)) = txt w).
     { unfold closing. destruct (has_ind ind).
-      - unfold emit_raw. destruct (emit st5 (indent ind L)) as [d st6] eqn:Ee. cbn [fst map seen].
-        exists (unesc d). split; [|rewrite Nv_cons_text, Nv_nil; cbn [ctext]; apply app_nil_r].
-        (* what is written is the indentation or nothing *)
-        unfold emit in Ee. destruct (writer_call (w_pres st5) (w_off st5) (indent ind L)) as [d' o'] eqn:Ew.
-        injection Ee as <- _.
-        destruct (indent ind L) as [|c r] eqn:Ei.
-        + assert (d' = []) as -> by (revert Ew; unfold writer_call; cbn; destruct (negb (w_pres st5) && (w_off st5 =? 0)%Z)%bool; cbn; intros [= <- _]; reflexivity).
-          constructor.
-        + pose proof (writer_keeps (w_pres st5) (w_off st5) (c :: r) ltac:(discriminate)) as Hkp. rewrite Ew in Hkp. cbn [fst] in Hkp.
-          rewrite Hkp.
-          2:{ rewrite <- (app_nil_r (c :: r)), <- Ei. apply (indent_head_nolf ind ind_nolf L []). exact I. }
-          rewrite <- (app_nil_r (c :: r)), <- Ei. rewrite unesc_ws_prefix by (unfold indent; apply ws_indent_repeat; exact ind_ws).
-          cbn [unesc]. rewrite app_nil_r. apply all_ws_indent. exact ind_ws.
+      - unfold emit_raw. pose proof (emit_ws st5 (indent ind L) ltac:(unfold indent; apply ws_indent_repeat; exact ind_ws)) as He.
+        destruct (emit st5 (indent ind L)) as [d st6]. cbn [fst map seen] in *.
+        exists (unesc d). split; [exact He|rewrite Nv_cons_text, Nv_nil; cbn [ctext]; apply app_nil_r].
       - exists []. split; [constructor|reflexivity]. }
     destruct closing as [c1 st6]. cbn [fst] in Hcl. destruct Hcl as (wc & Hwc & Ewc).
+    destruct (emit st6 ([60%N; 47%N] ++ (pfx ns ++ name) ++ [62%N])) as [cl st7].
     cbn [fst seen merge_tree]. fold (Nv (map seen ([KRaw d0] ++ (map (fun l => KRaw (text_line ind (S L) l)) ls ++ []) ++ c1))).
     apply wvt_tag; [exact Hd|]. apply wvk_list.
     (* the lines of the escaped text are the escaped lines of the text *)
@@ -409,20 +426,24 @@ Section TextOnlyC03.
     set (J := py_join (NL ++ indent ind (S L)) ls').
     replace (unesc d0 ++ (indent ind (S L) ++ J ++ NL) ++ wc) with ((unesc d0 ++ indent ind (S L)) ++ J ++ (NL ++ wc))
       by (rewrite <- !app_assoc; reflexivity).
-    assert (Hd0 : all_ws (unesc d0)).
-    { clear - Hoff. (* d0 is the newline or nothing *)
-      admit. }
+    assert (HJ : head_nows J) by (apply join_head_nows; assumption).
     rewrite txt_nonnull.
-    2:{ admit. }
+    2:{ rewrite <- (app_nil_r (_ ++ J ++ _)). apply null_mid. exact HJ. }
     rewrite <- (app_nil_l k) at 1. rewrite <- (app_nil_r k) at 1.
     change (@nil char) with (optsp false) at 1 2.
     apply (wv_X Start false false k J (unesc d0 ++ indent ind (S L)) (NL ++ wc) [] []);
       [exact Hk| |discriminate|reflexivity|reflexivity| | |congruence|congruence|constructor].
-    - unfold J. rewrite <- Ej'. apply lines_inner_variant; try assumption.
-      + rewrite Ej'. exact Hk.
-      + apply all_ws_app; [apply all_ws_NL|apply all_ws_indent; exact ind_ws].
-      + discriminate.
+    - unfold J. apply (lines_inner_variant k (NL ++ indent ind (S L)) ls' Hk Ej' HF' Hne'); [|discriminate].
+      apply all_ws_app; [apply all_ws_NL|apply all_ws_indent; exact ind_ws].
     - apply all_ws_app; [exact Hd0|apply all_ws_indent; exact ind_ws].
     - apply all_ws_app; [apply all_ws_NL|exact Hwc].
-  Admitted.
+  Qed.
 End TextOnlyC03.
+
+(* non-vacuity: a paragraph that needs three lines at width 5, at depth 1 *)
+Example text_only_example :
+  let k := [97; 97; 32; 98; 98; 32; 99; 99; 32; 100; 100]%N in
+  core k /\
+  render_list (fst (w_text [SP; SP] 5%Z (fun _ _ => None) 2 {| w_off := 0; w_pres := false |} [] None k None None))
+  = flat_map (fun l => [SP; SP; SP; SP] ++ l ++ NL) [[97; 97; 32; 98; 98]%N; [99; 99; 32; 100; 100]%N].
+Proof. split; [repeat split; vm_compute; reflexivity|vm_compute; reflexivity]. Qed.
